@@ -432,6 +432,8 @@ class Program:
             b = Body(bj, self)
             self.bodies[b.name] = b
         self.adts = {a["path"]: a for a in facts["adts"]}
+        crate = facts.get("crate", "")
+        CRATE_ENUMS.update(p_ for p_, a in self.adts.items() if a.get("kind") == "Enum" and crate and p_.startswith(crate + "::"))
         self.consts = {c["path"]: c for c in facts["consts"]}
         self._closures_by_parent = defaultdict(list)
         for b in self.bodies.values():
@@ -1063,9 +1065,14 @@ def _payload_kind(ty):
         return None
     if pt == "bool":
         return "b"
-    if _split_targs(pt)[0] in ("std::option::Option", "std::result::Result"):
+    if _split_targs(pt)[0] in ("std::option::Option", "std::result::Result") or _split_targs(pt)[0] in CRATE_ENUMS:
         return "t"
     return None
+
+
+# paths of the enums defined by the analysed crates (filled by Program): an enum of the crate as the success payload of a Result is
+# tracked like a nested Option (`fn cmp() -> io::Result<Compared>` followed by `match cmp()? { Same => .., Different => .. }`)
+CRATE_ENUMS = set()
 
 
 def _has_bool_payload(ty):
@@ -1102,6 +1109,10 @@ def tracked_flags(body):
                         useful = True
                     elif _payload_read(body, op, tags) is not None:
                         useful = True
+                elif rec[0] == "assign" and not rec[3]["lhs"]["p"] and rec[3]["rv"]["k"] == "unop" and rec[3]["rv"].get("op") == "Not":
+                    a = rec[3]["rv"]["a"]
+                    if a.get("k") in ("copy", "move") and not a["pl"]["p"] and a["pl"]["l"] in cand:
+                        useful = True       # `!flag`
             if not useful:
                 cand.discard(l)
                 changed = True
@@ -1302,6 +1313,8 @@ def _tracked_liveness(body, S):
             rv = st["rv"]
             if rv["k"] == "use":
                 reads_op(rv["op"], r)
+            elif rv["k"] == "unop" and isinstance(rv.get("a"), dict):
+                reads_op(rv["a"], r)
             elif rv["k"] == "discriminant" and rv["pl"]["l"] in tracked:
                 r.add(rv["pl"]["l"])
             elif rv["k"] == "aggregate":
@@ -1404,7 +1417,8 @@ def explore(body, cut=None, mark_edges=None, start_env=None, start_blocks=None, 
         bv = op_bool(op, e)
         if bv is not None:
             return ("b", bv)
-        if op["k"] in ("copy", "move") and not op["pl"]["p"] and op["pl"]["l"] in tidx and tags[op["pl"]["l"]] in TAG_ADTS:
+        if op["k"] in ("copy", "move") and not op["pl"]["p"] and op["pl"]["l"] in tidx and \
+                (tags[op["pl"]["l"]] in TAG_ADTS or tags[op["pl"]["l"]] in CRATE_ENUMS):
             v = e[tidx[op["pl"]["l"]]]
             return ("t", v) if v is not None else None
         # `Ok(move (r as Ok).0)`: re-wrapping the payload of another tracked local keeps what is known about it
@@ -1437,7 +1451,10 @@ def explore(body, cut=None, mark_edges=None, start_env=None, start_blocks=None, 
             rv = s_["rv"]
             if l in idx:
                 op = rv.get("op") if rv["k"] == "use" else None
-                if op is None:
+                if rv["k"] == "unop" and rv.get("op") == "Not":
+                    v_ = op_bool(rv["a"], e)
+                    e[idx[l]] = None if v_ is None else (not v_)
+                elif op is None:
                     e[idx[l]] = None
                 elif op["k"] == "const":
                     c_ = op_const(op)
